@@ -87,6 +87,31 @@ def mutants(g, rng, full):
     h = cp()
     h["final_states"] = []
     yield ("no-final-state", "", h, True)
+    # an unknown player that is not even hashable / not a string
+    for s in list(states)[:2]:
+        for v in (["Player 1"], {"p": 1}, None, 5):
+            h = cp()
+            h["players"][s] = v
+            yield ("unknown-player", f"state {s} value {type(v).__name__}", h, True)
+    # the empty game: no states at all
+    yield ("lengths-or-no-final", "empty game", {"rewards": [], "players": [], "transition_list": [], "final_states": []}, True)
+    yield ("final-out-of-range", "empty game, final 0", {"rewards": [], "players": [], "transition_list": [], "final_states": [0]}, True)
+    # two states SHARING one transition-list object: probabilistic state first, player state later;
+    # the player state's action is then not a string
+    pr_states = [i for i in range(n) if g["players"][i] == PR and len(tl[i]) == 1]
+    pl_states = [i for i in range(n) if g["players"][i] != PR]
+    for a in pr_states[:2]:
+        for b in [x for x in pl_states if x > a][:2]:
+            h = cp()
+            h["transition_list"][b] = h["transition_list"][a]        # the SAME list object
+            yield ("non-string-action", f"state {b} shares the list object of state {a}", h, True)
+    # two defects: a state without transitions before a state with ill-formed transitions
+    if n >= 3:
+        h = cp()
+        h["transition_list"][0] = None
+        lab, t_ = h["transition_list"][n - 3][0]
+        h["transition_list"][n - 3][0] = (lab, n + 1)
+        yield ("two-defects", "missing transitions + bad successor", h, True)
 
 
 def solve_outcome(g, prune):
